@@ -317,7 +317,8 @@ def r2(ctx):
         for f in fields:
             n += 1
             vs = got.get(f, [])
-            ok = len(vs) == 1 and vs[0].kind == 'place' and vs[0].root == ('param', 2) and vs[0].fields == (f,)
+            # (the same value written twice - once directly, once through a spliced helper - is one wiring)
+            ok = len(vs) >= 1 and all(v.kind == 'place' and v.root == ('param', 2) and v.fields == (f,) for v in vs)
             ctx.check(ok, R, b, '%s:merge:%s<-other.%s' % (kind, f, f), repr(vs)[:100],
                       'the attribute merge sets %s from %s (expected exactly other.%s: the continued track must echo '
                       'the new detection\'s value, including None)' % (f, [repr(v) for v in vs], f))
